@@ -23,8 +23,9 @@ TRUSTED_BASE = BASE_TRUSTED + [
 ]
 RULE = ('eleven closed-form stigmatic configurations (paraboloid at infinity, incl. after a fold mirror with Rc>0; spherical mirror at its centre of curvature; '
         'ellipsoid mirror focus-to-focus both ways; Cassegrain and Gregorian (hyperboloid/ellipsoid secondary); plano-hyperbolic singlet k=-n^2 both directions of travel; '
-        'refracting ellipsoid; plano-hyperbolic + aplanatic meniscus, image in air or immersed) over seeded radii 15..600 mm, n in [1.3,4], apertures from f/8 to f/0.6 '
-        '(NA to 0.9), 16-24 pupil points incl. the rim; non-trivial = instance whose marginal ray is finite at the image')
+        'refracting ellipsoid; plano-hyperbolic + aplanatic meniscus, image in air or immersed), half of them reached through an edit history '
+        '(built with other conic/radius/thickness/index, incl. flat-first, then set_conic/set_radius/set_thickness/set_index), over seeded radii 15..600 mm, n in [1.3,4], apertures from f/8 to f/0.6 '
+        '(NA to 0.9), 16-24 pupil points incl. the rim; FFTPSF sampled with every parity of num_rays, grid_size (odd grids 65..255) and of their difference; non-trivial = instance whose marginal ray is finite at the image')
 PARTIAL = [
     'ellipsoid/hyperboloid/plano-hyperbolic/aplanatic theorems take "the hit point lies on the vertex sheet of the conic" as a hypothesis (the exact hit distance '
     'returned by k_std_distance is proved only for the paraboloid at infinity and for rays through the centre of curvature); the correspondence run checks it numerically',
@@ -45,6 +46,7 @@ def _py_wavefront_kernel(man, cases):
     from optiland.wavefront import Wavefront
     fn = getattr(Wavefront, man['func'])
     pnames = [p for p in inspect.signature(fn).parameters if p != 'self']
+    NS = types.SimpleNamespace
     out = []
     for case in cases:
         vals = {i['path']: v for i, v in zip(man['inputs'], case)}
@@ -53,11 +55,11 @@ def _py_wavefront_kernel(man, cases):
             if pth.endswith('.size'):
                 ncols = int(v)
         me = object.__new__(Wavefront)
-        me.optic = types.SimpleNamespace(surface_group=types.SimpleNamespace(), paraxial=types.SimpleNamespace(),
-                                         fields=types.SimpleNamespace(), trace=lambda *a, **k: None)
-        me.distribution = types.SimpleNamespace()
+        me.optic = NS(trace=lambda *a, **k: None)
+        me.distribution = NS()
         args = {}
         tup = {}
+        pairs = {}
         for inp in man['inputs']:
             pth, kind, v = inp['path'], inp['kind'], vals[inp['path']]
             parts = pth.split('.')
@@ -71,8 +73,13 @@ def _py_wavefront_kernel(man, cases):
                 else:
                     args[parts[0]] = np.array([float(v)])
                 continue
+            if parts[-1] in ('e0', 'e1') and parts[-2].endswith('()'):      # pair-valued opaque call
+                pairs.setdefault(tuple(parts[1:-1]), {})[parts[-1]] = float(v)
+                continue
             obj = me
             for q in parts[1:-1]:
+                if not hasattr(obj, q):
+                    setattr(obj, q, NS())
                 obj = getattr(obj, q)
             last = parts[-1]
             if parts[1:3] == ['optic', 'surface_group']:
@@ -87,8 +94,17 @@ def _py_wavefront_kernel(man, cases):
             else:
                 val = float(v)
             setattr(obj, last, val)
+        for path_, d in pairs.items():
+            obj = me
+            for q in path_[:-1]:
+                if not hasattr(obj, q):
+                    setattr(obj, q, NS())
+                obj = getattr(obj, q)
+            setattr(obj, path_[-1][:-2], (lambda _v: (lambda *a, **k: _v))((d['e0'], d['e1'])))
         for k, d in tup.items():
             args[k] = (d['e0'], d['e1'])
+        if 'wavelength' in pnames and 'wavelength' not in args:
+            args['wavelength'] = 0.55          # only handed to material.n(), which is an (opaque) input
         call = [args.get(p) for p in pnames]
         try:
             r = fn(me, *call)
@@ -107,16 +123,23 @@ def _py_wavefront_kernel(man, cases):
     return out
 
 
+def _ordered(man, dicts):
+    """cases given as {input path: value}; returns them as lists in the manifest's input order
+    (a path the generator does not know is an obligation failure, never a silent default)"""
+    return [[d[i['path']] for i in man['inputs']] for d in dicts]
+
+
 def kernel_cases(ctx):
     g = ctx.gen
     n = ctx.n(200, 2000)
     M = ctx.manifests
+    SG = 'self.optic.surface_group.'
 
     def unit():
         return g.unit3()
 
     # ---- wavefront kernels ----
-    ci = []
+    base = []
     for i in range(n):
         c = [g.uni(-2, 2), g.uni(-2, 2), g.uni(20, 200) * g.r.choice([-1, 1])]
         R = g.uni(10, 300)
@@ -127,36 +150,31 @@ def kernel_cases(ctx):
             p = [c[0] + g.uni(-0.05, 0.05), c[1] + g.uni(-0.05, 0.05), c[2]]
         else:                # ray far from the sphere (miss: negative discriminant -> nan)
             p = [c[0] + g.uni(-2, 2) * R, c[1] + g.uni(-2, 2) * R, c[2]]
-        ci.append(c + [R] + p + d)
-    if 'c06_opd_image_to_xp' in M:
-        yield 'c06_opd_image_to_xp', ci, {'pyres': _py_wavefront_kernel(M['c06_opd_image_to_xp'], ci)}
-    rs = []
-    for i in range(n):
-        rs.append([g.uni(-300, 300), g.uni(-3, 3), (2 if i % 7 == 0 else 1), g.uni(-3, 3), g.uni(-300, 300)])
-    if 'c06_ref_sphere' in M:
-        yield 'c06_ref_sphere', rs, {'pyres': _py_wavefront_kernel(M['c06_ref_sphere'], rs)}
-    pl = [[c[0], c[1], c[2], c[3], g.uni(50, 900)] + c[4:] for c in ci]
-    if 'c06_path_length' in M:
-        yield 'c06_path_length', pl, {'pyres': _py_wavefront_kernel(M['c06_path_length'], pl)}
-    ct, ct2 = [], []
-    for i in range(n):
-        ft = g.r.choice(['angle', 'angle', 'object_height'])
         H = [0.0, 0.0] if i % 2 == 0 else [g.uni(-1, 1), g.uni(-1, 1)]
-        mx, my, epd = g.uni(0, 20), g.uni(0, 20), g.uni(1, 100)
-        ct.append([g.uni(50, 900), g.uni(-1, 1), g.uni(-1, 1), ft] + H + [mx, my, epd])
-        ct2.append([g.uni(50, 900), ft] + H + [mx, my, g.uni(-1, 1), g.uni(-1, 1), epd])
-    if 'c06_correct_tilt_xy' in M:
-        yield 'c06_correct_tilt_xy', ct, {'tol': 1e-13, 'pyres': _py_wavefront_kernel(M['c06_correct_tilt_xy'], ct)}
-    if 'c06_correct_tilt' in M:
-        yield 'c06_correct_tilt', ct2, {'tol': 1e-13, 'pyres': _py_wavefront_kernel(M['c06_correct_tilt'], ct2)}
-    fd = []
-    for i, c in enumerate(ci):
-        ft = g.r.choice(['angle', 'object_height'])
-        H = [0.0, 0.0] if i % 2 == 0 else [g.uni(-1, 1), g.uni(-1, 1)]
-        fd.append([g.r.choice([0.4861, 0.55, 0.6563]), g.uni(50, 900)] + c[:4] + [g.uni(0, 1), g.uni(50, 900)] + c[4:]
-                  + [ft] + H + [g.uni(0, 20), g.uni(0, 20), g.uni(-1, 1), g.uni(-1, 1), g.uni(1, 100)])
-    if 'c06_field_data' in M:
-        yield 'c06_field_data', fd, {'tol': 1e-13, 'pyres': _py_wavefront_kernel(M['c06_field_data'], fd)}
+        base.append({
+            'xc': c[0], 'yc': c[1], 'zc': c[2], 'R': R, 'r': R,
+            SG + 'x': p[0], SG + 'y': p[1], SG + 'z': p[2], SG + 'L': d[0], SG + 'M': d[1], SG + 'N': d[2],
+            SG + 'opd': g.uni(50, 900), SG + 'intensity': g.uni(0, 1), SG + 'x.size': (2 if i % 7 == 0 else 1),
+            'pupil_z': g.uni(-300, 300),
+            'self.optic.image_surface.material_pre.n()': g.r.choice([1.0, g.uni(1.3, 4.0), -g.uni(1.3, 4.0)]),
+            'self.optic.object_surface.material_post.n()': g.r.choice([1.0, 1.0, g.uni(1.3, 2.0)]),
+            'opd': g.uni(50, 900), 'opd_ref': g.uni(50, 900), 'x': g.uni(-1, 1), 'y': g.uni(-1, 1),
+            'wavelength': g.r.choice([0.4861, 0.55, 0.6563]),
+            'self.optic.field_type': g.r.choice(['angle', 'angle', 'object_height']),
+            'field.e0': H[0], 'field.e1': H[1], 'self.optic.fields.max_field': g.uni(0, 20),
+            'self.optic.fields.get_vig_factor().e0': g.r.choice([0.0, 0.0, g.uni(0, 0.4)]),
+            'self.optic.fields.get_vig_factor().e1': g.r.choice([0.0, 0.0, g.uni(0, 0.4)]),
+            'self.distribution.x': g.uni(-1, 1), 'self.distribution.y': g.uni(-1, 1),
+            'self.optic.paraxial.EPD()': g.uni(1, 100),
+        })
+    for kname, tol in (('c06_opd_image_to_xp', None), ('c06_ref_sphere', None), ('c06_path_length', None),
+                       ('c06_correct_tilt_xy', 1e-13), ('c06_correct_tilt', 1e-13), ('c06_field_data', 1e-13)):
+        if kname in M:
+            cs = _ordered(M[kname], base)
+            opts = {'pyres': _py_wavefront_kernel(M[kname], cs)}
+            if tol is not None:
+                opts['tol'] = tol
+            yield kname, cs, opts
 
     # ---- the shared conic kernels on the inputs the stigmatic configurations produce ----
     dist, nrm = [], []
@@ -217,6 +235,7 @@ def _instances(ctx, per_config, salt=0):
 
 def _witness(cfg, violations, n_sin_u=None):
     return {'config': cfg['name'], 'params': cfg['params'], 'spec': cfg['spec'],
+            'edits_after_build': cfg.get('edits') or [],
             'image_in_glass': cfg.get('image_in_glass'), 'n_sin_u_image': n_sin_u,
             'violations': violations, 'violates_property': True}
 
@@ -282,6 +301,8 @@ def system_checks(ctx):
         bodies.append('\n'.join(defs) + '\nEval vm_compute in (report [\n' + ';\n'.join(lines) + '\n]).\n')
         meta.append((cfg, len(recs), recs))
         resA['histogram'][cfg['name']] = resA['histogram'].get(cfg['name'], 0) + 1
+        if cfg.get('edits'):
+            resA['histogram']['reached_by_edit_history'] = resA['histogram'].get('reached_by_edit_history', 0) + 1
     try:
         out = vlib.run_cases('C06trace', 'From OV Require Import Model.Trace Model.M_C06.', bodies)
     except RuntimeError as e:
@@ -316,7 +337,7 @@ def system_checks(ctx):
     resB = {'name': 'wavefront-model-vs-implementation', 'n': 0, 'nontrivial': 0, 'samples': [], 'disagreements': []}
     resC = {'name': 'strehl-model-vs-implementation', 'n': 0, 'nontrivial': 0, 'samples': [], 'disagreements': []}
     bodiesB, metaB, bodiesC, metaC = [], [], [], []
-    for cfg, o in built:
+    for inst_i, (cfg, o) in enumerate(built):
         wf = None
         try:
             nrw = ctx.n(3, 5)
@@ -335,8 +356,12 @@ def system_checks(ctx):
             chief = [float(c[-1, 0]) for c in [sg.x, sg.y, sg.z, sg.L, sg.M, sg.N, sg.intensity, sg.opd]]
             pupil_z = float(np.ravel(o.paraxial.XPL())[0] + np.ravel(o.surface_group.positions[-1])[0])
             epd = float(np.ravel(o.paraxial.EPD())[0])
+            vx, vy = o.fields.get_vig_factor(0.0, 0.0)
+            n_obj = float(np.ravel(o.object_surface.material_post.n(c06_lib.WL))[0])
+            n_img = float(np.ravel(o.image_surface.material_pre.n(c06_lib.WL))[0])
             env = (f'(mkEnv (O:=FOps) {fh(pupil_z)} "{o.field_type}"%string {fh(0.0)} {fh(0.0)} '
-                   f'{fh(float(o.fields.max_x_field))} {fh(float(o.fields.max_y_field))} {fh(epd)} {fh(c06_lib.WL)})')
+                   f'{fh(float(o.fields.max_field))} {fh(float(vx))} {fh(float(vy))} {fh(epd)} '
+                   f'{fh(n_obj)} {fh(n_img)} {fh(c06_lib.WL)})')
             rl = '[' + '; '.join(f'({fh(float(px))}, {fh(float(py))}, {_coq_rec(r, fh)})'
                                  for px, py, r in zip(dist.x, dist.y, rays)) + ']'
             exp = [v for a, b in zip(data, inten) for v in (float(a), float(b))]
@@ -347,8 +372,9 @@ def system_checks(ctx):
             metaB.append((cfg, data, tol_w))
         ps = None
         try:
-            npsf = ctx.n(12, 24)
-            ps = FFTPSF(o, (0.0, 0.0), c06_lib.WL, num_rays=npsf, grid_size=64)
+            # all parities of num_rays, grid_size and of their difference, odd grids up to 255
+            npsf, grid = c06_lib.psf_sampling_cycle(inst_i, rng)
+            ps = FFTPSF(o, (0.0, 0.0), c06_lib.WL, num_rays=npsf, grid_size=grid)
         except Exception as e:     # noqa
             resC['disagreements'].append(_witness(cfg, [{'kind': 'psf-raises', 'error': repr(e)[:200]}]))
         if ps is not None:
@@ -357,7 +383,9 @@ def system_checks(ctx):
             i0 = np.asarray(ps.data[0][0][1], dtype=float)
             dl = '[' + '; '.join(f'({fh(float(a))}, {fh(float(b))})' for a, b in zip(d0, i0)) + ']'
             bodiesC.append(f'Eval vm_compute in (report [close {fh(1e-9)} (strehl_dc (O:=FOps) {dl}) {fh(sval)}]).\n')
-            metaC.append((cfg, sval, len(d0)))
+            metaC.append((cfg, sval, len(d0), (npsf, grid)))
+            resC.setdefault('histogram', {})[f'num_rays%2={npsf % 2},grid%2={grid % 2}'] = \
+                resC.get('histogram', {}).get(f'num_rays%2={npsf % 2},grid%2={grid % 2}', 0) + 1
     for res, bodies_, meta_ in ((resB, bodiesB, metaB), (resC, bodiesC, metaC)):
         try:
             out = vlib.run_cases('C06' + res['name'][:4], 'From OV Require Import Model.M_C06.', bodies_)
@@ -385,9 +413,19 @@ def system_checks(ctx):
                 w = _confirm(cfg, rng)
                 d = w or {'config': cfg['name'], 'params': cfg['params'], 'violates_property': False}
                 d['model_disagrees'] = True
+                if res is resC:
+                    d['num_rays,grid_size'] = list(m[3])
+                    if not w:      # the sweep of the oracle drew other samplings: re-run it on this one
+                        bad = c06_lib.oracle(cfg, rng, wavefront=False, samplings=[m[3]])
+                        if bad:
+                            d = _witness(cfg, bad)
+                            d['model_disagrees'] = True
                 res['disagreements'].append(d)
             elif viol:            # they agree, and both violate the property
                 w = _confirm(cfg, rng)
+                if not w and res is resC:
+                    bad = c06_lib.oracle(cfg, rng, wavefront=False, samplings=[m[3]])
+                    w = _witness(cfg, bad) if bad else None
                 res['disagreements'].append(w or {'config': cfg['name'], 'params': cfg['params'],
                                                   'violates_property': False,
                                                   'note': 'clause violated in the check but not reproduced by the oracle'})
